@@ -12,6 +12,9 @@ CHECKS = {
  "C02": dict(engine="vsim", technique="runtime monitoring: exactly-once / intact / valid accounting of uniquely tagged application messages over simulator histories against the canonical chain",
    text="Exploration: on the same histories as C01 every application message (unique body) created on the canonical chain must be stored exactly once, unaltered and Processed at every converged client that was in its sending state (inside the configured past-epoch window at first delivery); messages of losing branches must not be left valid.",
    note="Judges only clients that converged (others are C01's business); default sender-ratchet windows are never exceeded by the generated bursts.", ref="5/C02"),
+ "C03": dict(engine="vsim", technique="runtime monitoring: canary (unique plaintext) scan of everything every client stores or is returned, against the membership timeline recorded at send time, after feeding every client every published event and welcome in several orders",
+   text="Exploration: on N linear histories with adds, removals, leaves, self-updates, id rotations and re-invitations, every client (never-member, other-group member, ex-members with their storage, late joiners, members) is fed all wrapper events and welcome rumors in log order, reversed and shuffled, twice; no client may store or be returned a message body whose epoch's member set does not contain its user; a client that processed its removal is Inactive and cannot send.",
+   note="Cryptographic strength is not observable; what is decided is that no driven path hands over plaintext or keeps a removed member active.", ref="5/C03"),
  "C04": dict(engine="vsim+adversary", technique="runtime monitoring: adversarial-member workload (spoofed author, pre-set/stale rumor ids, odd fields, verbatim and re-wrapped replays, re-tagged wrappers) with a shadow map of stored messages and per-message binding checks re-evaluated after every attack at two honest receivers",
    text="Exploration: after every one of N attacks by a malicious member every message stored at two honest receivers, in every group, must have an id that is the NIP-01 hash of its stored fields and of its stored event, an author equal to the identity whose MLS ciphertext it was, and no earlier stored message may have changed author or content or vanished; no body may be stored twice.",
    note="The MLS-authenticated sender is known by construction (the harness knows whose stored state produced each ciphertext).", ref="5/C04"),
@@ -76,7 +79,7 @@ def main():
         },
         "engines": [
             {"name": "vstore", "path": "/verif/harness/src/vstore", "serves_properties": ["C09", "C10", "C18", "C19"], "kind_free_text": "storage-level operation language, generator, interpreter over real backends, full read-out, executable reference model"},
-            {"name": "vsim", "path": "/verif/harness/src/sim", "serves_properties": ["C01", "C02", "C04", "C05", "C06", "C07", "C08", "C16", "C18", "C20"], "kind_free_text": "world simulator: N real MDK clients (memory / SQLite), relay log, harness-chosen delivery schedules, pinned wrapper timestamps, oracle replica, per-step monitors"},
+            {"name": "vsim", "path": "/verif/harness/src/sim", "serves_properties": ["C01", "C02", "C03", "C04", "C05", "C06", "C07", "C08", "C16", "C18", "C20"], "kind_free_text": "world simulator: N real MDK clients (memory / SQLite), relay log, harness-chosen delivery schedules, pinned wrapper timestamps, oracle replica, per-step monitors"},
         ],
         "checks": checks,
         "notes": "All checks: exit 0 = held on what was observed or inconclusive (reason in evidence.coverage.inconclusive); exit 1 + VIOLATION line = violated; exit 2 = harness does not build. Known findings: /verif/known-findings.txt.",
